@@ -453,3 +453,54 @@ Example laminar_put_back_example :
     laminar_withb (odata (rq HWLOC_OBJ_GROUP 20 6)) r = false /\
     snd (insert_by_cpuset [] false r (rq HWLOC_OBJ_GROUP 20 6)) = OFail.
 Proof. exact laminar_never_fails_example. Qed.
+
+(* ---------- the x86 backend's object construction (model: Topo/X86.v = summarize() under full discovery, as a
+   function of the per-PU information gathered by CPUID, printed by a guarded hook at the start of summarize();
+   tied request by request to the objects the backend hands to the core on every x86 load of a run) ---------- *)
+From HV Require Import Topo.X86 Topo.X86Proofs.
+
+(* whatever CPUID reported: every PU that was looked at gets its PU request (type PU, os_index = its number, cpuset =
+   its singleton) and no other PU request exists (the list is empty only when no PU was looked at) *)
+Theorem x86_pu_requests_are_the_looked_at_pus : forall keep v rs, x86_requests keep v = Some rs ->
+  forall i, (In (simple_req HWLOC_OBJ_PU i (bs_single i)) rs <-> (i < nbprocs v /\ xp_present (proc v i) = true)) \/ rs = [].
+Proof. exact x86_pu_requests. Qed.
+Print Assumptions x86_pu_requests_are_the_looked_at_pus.
+
+(* the grouping loop, for any "skip" and any symmetric and transitive "same": pairwise disjoint classes *)
+Theorem x86_grouping_loop_classes_disjoint : forall skip same,
+  (forall a b, same a b = same b a) -> (forall a b c, same a b = true -> same b c = true -> same a c = true) ->
+  forall cands rem, ForallOrdPairs (fun p q => X86Proofs.disj (snd p) (snd q)) (classes skip same cands rem).
+Proof. exact classes_disjoint. Qed.
+Print Assumptions x86_grouping_loop_classes_disjoint.
+
+(* Packages are pairwise disjoint and every looked-at PU is in one; Dies / NUMA nodes / Groups (keyed by package
+   and one id) and Cores (package, node, core) are pairwise disjoint *)
+Theorem x86_packages_partition_the_looked_at_pus : forall v,
+  ForallOrdPairs (fun p q => X86Proofs.disj (snd p) (snd q)) (by_ids v (fun _ => false) (eq_id v PKG)) /\
+  (forall i, i < nbprocs v -> xp_present (proc v i) = true ->
+             exists l s, In (l, s) (by_ids v (fun _ => false) (eq_id v PKG)) /\ mem i s = true).
+Proof. intros v. split; [apply x86_package_sets_disjoint|apply x86_every_looked_at_pu_has_a_package]. Qed.
+Print Assumptions x86_packages_partition_the_looked_at_pus.
+
+Theorem x86_keyed_and_core_classes_disjoint : forall v,
+  (forall k, ForallOrdPairs (fun p q => X86Proofs.disj (snd p) (snd q)) (by_ids v (no_id v k) (fun i j => eq_id v PKG i j && eq_id v k i j))) /\
+  ForallOrdPairs (fun p q => X86Proofs.disj (snd p) (snd q))
+                 (by_ids v (no_id v CORE) (fun i j => eq_id v PKG i j && eq_id v NODE i j && eq_id v CORE i j)).
+Proof. intros v. split; [intros k; apply x86_keyed_sets_disjoint|apply x86_core_sets_disjoint]. Qed.
+Print Assumptions x86_keyed_and_core_classes_disjoint.
+
+(* members of a class are indexes below nbprocs that are not skipped and share the leader's key; the leader was
+   looked at.  (Members need NOT have been looked at: the C loop runs over all indexes; the example of X86Proofs
+   shows a Package swallowing such a PU when its ids happen to match.) *)
+Theorem x86_class_members_share_the_key : forall v skip same l s, In (l, s) (by_ids v skip same) ->
+  l < nbprocs v /\ xp_present (proc v l) = true /\ skip l = false /\
+  forall j, mem j s = true -> j < nbprocs v /\ skip j = false /\ same l j = true.
+Proof. exact x86_class_members. Qed.
+Print Assumptions x86_class_members_share_the_key.
+
+Example x86_requests_nonvacuous :
+  match x86_requests (fun _ => true) ex_xview with
+  | Some rs => List.length rs = 19%nat /\ In (simple_req HWLOC_OBJ_PU 6 (bs_single 6)) rs /\ ~ In (simple_req HWLOC_OBJ_PU 5 (bs_single 5)) rs
+  | None => False
+  end.
+Proof. vm_compute. split; [reflexivity|]. split; [tauto|]. intuition discriminate. Qed.
